@@ -337,6 +337,14 @@ def c05_queries(tier):
     Nb = 20 if tier == 'quick' else 40
     qs += [email_query('C05', m, Nb, covers=['end', 'accepted-literal', 'accepted-tagged-v6', 'accepted-v4', 'accepted-untagged-v6'],
                        timeout=3000) for m in range(4)]
+    # the longest literal: "[IPv6:" + 45 address characters + "]" = 52 bytes; with "x@" in front 54: every byte
+    # arbitrary, one query per address length around it (a length limit inside check_ip shows up here)
+    for m in range(4):
+        for n in ((54, 55) if tier == 'quick' else (50, 52, 53, 54, 55, 56, 58, 60)):
+            q = email_exact('C05', m, n)
+            if n == 54:
+                q.covers = ['end', 'accepted-literal']
+            qs.append(q)
     return qs
 
 
@@ -833,7 +841,7 @@ _T = {
             _BMC + ' (CaDiCaL for the structured family); differential harness against a reference recogniser'),
     'C05': ('Sandwich RFC 5321 4.1.3 <= accepted <= RFC 4291 for the real is_ipv4 (every string to 16/24 bytes), is_ipv6 (every string to 16 / 24, 28, 32 bytes; to 20/22 over the address alphabet; '
             'nested is_ipv4 replaced by an uninterpreted verdict inside its own proved bounds) and dispatch-only is_ipaddr; bracket handling, tag and '
-            'family flag for every address up to 20/40 bytes with uninterpreted address validators.',
+            'family flag for every address up to 20/40 bytes and of exactly 54, 55 / 50-60 bytes (the longest literal is 52) with uninterpreted address validators.',
             _BMC + '; two-sided reference recognisers; callee body replacement (assume-guarantee)'),
     'C06': ('All pointer, bounds, overflow, shift, division, leak and unwinding obligations CBMC generates for every public entry point, with objects '
             'sized so that a read before the first byte or after the terminator is out of bounds; abort()/assert() reachable = failure; uninitialised '
